@@ -782,12 +782,12 @@ func TestVerifC42Roundtrip(t *testing.T) {
 	}
 
 	// (a) synthetic worlds
-	ncases := c.N(120, 4000)
+	ncases := c.N(120, 1200)
 	for i := 0; i < ncases && c.Violations() < 20; i++ {
 		r := c.Rand(2, uint64(i))
 		size := tableSizes[i%len(tableSizes)]
 		w := newWorld(r, size)
-		n := r.Range(50, c.N(700, 3000))
+		n := r.Range(50, c.N(700, 1500))
 		if size >= 512 && r.Chance(1, 2) {
 			n = r.Range(2*int(size), 4*int(size)) // enough traffic to fill and churn the big tables
 		}
